@@ -2,6 +2,8 @@
 
  C13.trampoline  begin / beginf / beginfN store the finished flag after the user function returned on every exit, copy the context
                  to a local BEFORE setting `ready`, and do not touch the creator's context after that store
+ C13.handover    the hand-over of the context is a synchronising operation: `ready` is set by an atomic read-modify-write on the flag
+                 (or a plain store preceded by a fence) after the copy - a plain volatile store does not order the non-volatile copy
  C13.context     every function that hands the address of a local Context to thread creation waits on its `ready` flag after the
                  creation on every path before the local goes out of scope
  C13.creator     after the call that creates the OS thread, the creating thread never stores to that object's finished flag
@@ -40,6 +42,51 @@ def is_flag_store(e, value=None):
     return False
 
 
+SYNC_PREFIXES = ('atomicInc', 'atomicDec', 'asl::atomicInc', 'asl::atomicDec', '__sync_', '__atomic_', 'Interlocked', '_Interlocked', 'MemoryBarrier',
+                 'std::atomic', 'atomic_thread_fence', 'std::atomic_thread_fence')
+
+
+def is_sync_call(e):
+    """a call of an atomic read-modify-write or fence primitive (a full barrier for compiler and hardware)"""
+    return e.get('k') == 'call' and any((e.get('fn') or '').startswith(p_) for p_ in SYNC_PREFIXES)
+
+
+def _addr_of_ready(a):
+    a = strip(a)
+    while a.get('k') in ('cast', 'paren'):
+        a = strip(a['e'])
+    return a.get('k') == 'un' and a.get('op') == '&' and strip_lv(a['e']).get('k') == 'mem' and strip_lv(a['e']).get('f') == 'ready'
+
+
+def ready_signal(prog, e):
+    """How the expression hands the context back to the creator: 'plain' for an assignment to the `ready` field, 'atomic' for an
+    atomic operation applied to its address (directly or inside a helper that receives the address), 'unknown' for a helper
+    that receives the address and does something else; None when the expression is not the hand-over."""
+    if e.get('k') == 'bin' and e.get('op') == '=' and strip_lv(e['x']).get('k') == 'mem' and strip_lv(e['x']).get('f') == 'ready':
+        return 'plain'
+    if e.get('k') == 'un' and e.get('op') in ('pre++', 'post++') and strip_lv(e['e']).get('k') == 'mem' and strip_lv(e['e']).get('f') == 'ready':
+        return 'plain'
+    if e.get('k') == 'call' and any(_addr_of_ready(a) for a in e.get('a', [])):
+        if is_sync_call(e):
+            return 'atomic'
+        j = [i for i, a in enumerate(e['a']) if _addr_of_ready(a)][0]
+        for g in prog.fn(e.get('fn'), e.get('sig')):
+            if not g.get('body') or j >= len(g['params']):
+                continue
+            pid = g['params'][j]['id']
+            kinds = []
+            for w in fn_exprs(g):
+                uses = lambda x: any(y.get('k') == 'var' and y.get('id') == pid for y in walk_expr(x))
+                if is_sync_call(w) and any(uses(a) for a in w.get('a', [])):
+                    kinds.append('atomic')
+                elif w.get('k') == 'bin' and w.get('op') == '=' and strip_lv(w['x']).get('k') == 'un' and uses(w['x']):
+                    kinds.append('plain')
+            if kinds:
+                return 'atomic' if kinds[0] == 'atomic' else 'plain'
+        return 'unknown'
+    return None
+
+
 def check_trampolines(ctx, prog):
     n = 0
     for pat in ('asl::Thread::begin', 'asl::Thread::beginf', 'asl::Thread::beginfN'):
@@ -53,6 +100,7 @@ def check_trampolines(ctx, prog):
             name = f['n']
             p_id = f['params'][0]['id']
             problems = []
+            handover = []
             # user call: virtual run() on the thread object, or operator() of the functor held in the local context
             def is_user_call(e):
                 if e.get('k') != 'call':
@@ -92,7 +140,7 @@ def check_trampolines(ctx, prog):
                 return None
 
             def step(nd, st):
-                if 'ready' in st and nd.kind == 'ev' and nd.e is not None and not (nd.e.get('k') == 'bin' and nd.e.get('op') == '=' and strip_lv(nd.e['x']).get('f') == 'ready'):
+                if 'ready' in st and nd.kind == 'ev' and nd.e is not None and ready_signal(prog, nd.e) is None:
                     w_ = derefs_context(nd.e)
                     if w_ is not None:
                         problems.append((nd.e.get('l', 0), 'the creator\'s context is read through `%s` after `ready` was set (the creator may already have left the scope that owns it; the slot can hold another thread\'s context by then)' % pe(w_)[:40]))
@@ -103,10 +151,14 @@ def check_trampolines(ctx, prog):
                 if nd.kind != 'ev' or nd.e is None:
                     return st
                 e = nd.e
-                if e.get('k') == 'bin' and e.get('op') == '=' and strip_lv(e['x']).get('f') == 'ready':
+                sig_ = ready_signal(prog, e)
+                if sig_ is not None:
                     if 'ctx' not in st and name != 'begin':
                         problems.append((e.get('l', 0), '`ready` is set before the context was copied to a local'))
+                    handover.append((e.get('l', 0), sig_, 'fence' in st))
                     return st | frozenset(['ready'])
+                if is_sync_call(e) and 'ctx' in st:
+                    return st | frozenset(['fence'])
                 if e.get('k') == 'var' and e.get('id') == p_id and 'ready' in st and 'readystore' not in st:
                     pass
                 if is_user_call(e):
@@ -127,7 +179,7 @@ def check_trampolines(ctx, prog):
                         problems.append((f.get('end', 0), 'a path returns from the thread function without storing the finished flag'))
             # uses of the raw argument after ready
             order = list(fn_exprs(f))
-            ready_pos = [i for i, e in enumerate(order) if e.get('k') == 'bin' and e.get('op') == '=' and strip_lv(e['x']).get('f') == 'ready']
+            ready_pos = [i for i, e in enumerate(order) if ready_signal(prog, e) is not None]
             if ready_pos:
                 later = [e for e in order[ready_pos[-1] + 1:] if e.get('k') == 'var' and e.get('id') == p_id and e.get('l', 0) > order[ready_pos[-1]].get('l', 0)]
                 if later:
@@ -137,6 +189,23 @@ def check_trampolines(ctx, prog):
                 ctx.violation('C13.trampoline', f['pq'], role, fwhere(f, problems[0][0]), '%s (%s)' % (problems[0][1], f['q']))
             else:
                 ctx.ok('C13.trampoline', f['pq'], role, fwhere(f), 'context copied, ready set, user function run, finished flag stored - in that order on every exit')
+            if name != 'begin':
+                # the hand-over itself: the copy of the context is an ordinary (non-volatile) read of the creator's object, so only a
+                # barrier between it and the flag - an atomic operation on the flag, or a fence before a plain store - keeps compiler
+                # and processor from completing part of the copy after the creator was released
+                role = name + ':the context copy is complete before the creator is released'
+                plain = [h for h in handover if h[1] == 'plain' and not h[2]]
+                unk = [h for h in handover if h[1] == 'unknown']
+                if not handover:
+                    ctx.undecided('C13.handover', f['pq'], role, fwhere(f), 'no store or atomic operation on the `ready` flag found')
+                elif plain:
+                    ctx.violation('C13.handover', f['pq'], role, fwhere(f, plain[0][0]), '`ready` is set by a plain store to a volatile field with no barrier after the (non-volatile) copy of the context: volatile orders only '
+                                  'volatile accesses, so the compiler may complete part of the copy after the store (g++ 12 -O2 does: a 16-byte load of the context follows the store of the flag) and the creator, released '
+                                  'by the flag, has already overwritten the context - a worker of parallel_for then runs with the next worker\'s functor/bounds or with none (%s)' % f['q'])
+                elif unk:
+                    ctx.undecided('C13.handover', f['pq'], role, fwhere(f, unk[0][0]), 'the `ready` flag is handed to a helper that neither stores to it nor applies an atomic operation')
+                else:
+                    ctx.ok('C13.handover', f['pq'], role, fwhere(f, handover[0][0]), 'the flag is set by an atomic read-modify-write (full barrier) or after a fence that follows the copy')
     ctx.floor('C13.trampoline', n, 3)
 
 
